@@ -12,15 +12,15 @@ CHECKS = {
          "trusts afkverif/refproto.py (written from the protocol guide, self-tested, shares no code with afkak); snappy not installed", "3/C04"),
  "C05": ("codec", "exploration",
          "differential monitoring: independent reference encoder -> afkak decoders; round-trip law",
-         "Generated well-formed responses of every supported API/version and message sets (both magics, gzip, nesting) are produced by the independent encoder and decoded by afkak; equality of every field, plus encode/decode identity and afkak-encode -> reference-decode agreement.",
+         "Generated well-formed responses of every supported API/version and message sets (both magics, gzip incl. multi-member streams, nesting, empty wrappers, wrappers stamped LogAppendTime) are produced by the independent encoder and decoded by afkak; equality of every field, plus encode/decode identity and afkak-encode -> reference-decode agreement.",
          "trusts refproto encoders; nested wrappers only in magic 0; snappy not installed", "3/C05"),
  "C12": ("codec", "fault_enumeration",
          "fault injection on encoded data (all bit flips, bursts, truncations) with exception/step/allocation monitors",
-         "Per generated message set every single-bit flip of every top-level message and every truncation point is enumerated, bursts <= 32 bits are sampled, and arbitrary/mutated/hostile byte strings are fed to every decoder under a sys.monitoring line counter and tracemalloc; exhaustive per set, sets sampled.",
+         "Per generated message set every single-bit flip of every top-level message and every truncation point is enumerated, bursts <= 32 bits are sampled, and arbitrary/mutated/hostile byte strings are fed to every decoder under a sys.monitoring line counter and tracemalloc; exhaustive per set, sets sampled. Also alterations of a message inside a compressed wrapper whose own CRC is valid (re-compressed, re-wrapped), and fetch-size growth cases at the consumer.",
          "CRC-32 burst-detection theory for the oracle; linear resource bound constants 60 lines/byte and 64 B/byte (+fixed) calibrated at >20x the valid-input maximum", "3/C12"),
  "C15": ("pure", "exploration",
          "runtime oracle over real assignor + independent decoder; small configuration space enumerated",
-         "Generated member sets / subscriptions / partition maps are run through the real join_group_protocols -> generate_assignments -> decode_assignment in several permutations; exact cover, subscribed-only, balance, permutation invariance, decode=assign checked on each; all configurations up to 3 members x 2 topics x 3 partitions enumerated in thorough. Also on live groups (the C16 monitor's assignment clauses): the same leader assigning again after partitions were added, a failed partition lookup by the leader (an empty assignment is a violation), and each member creating exactly the consumers it was assigned.",
+         "Generated member sets / subscriptions / partition maps are run through the real join_group_protocols -> generate_assignments -> decode_assignment in several permutations; exact cover, subscribed-only, balance, permutation invariance, decode=assign checked on each; all configurations up to 3 members x 2 topics x 3 partitions enumerated in thorough. Also on live groups (the C16 monitor's assignment clauses): the same leader assigning again after partitions were added, a failed partition lookup by the leader (an empty assignment is a violation), and each member creating exactly the consumers it was assigned; a partition that is leaderless, or a topic that expands (first announced with an error code), when the second assignment is computed.",
          "every member subscribes to >= 1 topic; partition map complete after the _NeedTopicPartitions retry", "3/C15"),
  "C18": ("pure", "exploration",
          "differential monitoring against Java (JVM), C and Python reference Murmur2; window-fairness monitor over selection histories",
@@ -31,7 +31,7 @@ CHECKS = {
 CHECKS.update({
  "C06": ("brokerclient", "exploration",
          "history monitor at the client boundary (one recorder per request Deferred + AlreadyCalledError trap) against the server's frame log; differential re-run for non-interference",
-         "The real _KafkaBrokerClient/KafkaProtocol and KafkaBootstrapProtocol run over an in-memory network against a scripted raw server (late, duplicate, swapped, unsolicited and oversize frames; arbitrary chunking; cuts; cancels, disconnect, close, also from inside completion callbacks). Each request must fire exactly once with the first delivered frame bearing its id, or with CancelledError/ClientError for the right reason; removing unsolicited frames from the plan must not change any outcome.",
+         "The real _KafkaBrokerClient/KafkaProtocol and KafkaBootstrapProtocol run over an in-memory network against a scripted raw server (late, duplicate, swapped, unsolicited and oversize frames; arbitrary chunking; cuts; cancels, disconnect, close, also from inside completion callbacks). Each request must fire exactly once with the first delivered frame bearing its id, or with CancelledError/ClientError for the right reason; removing unsolicited frames from the plan must not change any outcome; a request pending although the server answered everything and accepted every connection for 60 s is a violation. Also requests the transport cannot write (must fail once, siblings untouched) and request-table situations generated on purpose: a connection lost while cancelled entries sit among live ones, close() failing unsent requests whose callbacks cancel siblings or close again.",
          "simnet models Twisted TCP transport semantics (no dataReceived after loseConnection, writes in the same turn still flushed); bootstrap protocol exempt from non-interference by design", "3/C06"),
  "C10": ("brokerclient", "fault_enumeration",
          "online trace checker replayed over the unified event log (issues, cancels, fires, attempts, per-connection writes, losses, quiescent points); cut points enumerated",
@@ -49,15 +49,15 @@ CHECKS.update({
 CHECKS.update({
  "C11": ("client-e2e", "exploration",
          "timing monitor at the wrapped _make_request_to_broker boundary on a virtual clock + timer-count invariant at every quiescent point + differential re-run without late replies",
-         "Requests of mixed kinds (incl. JoinGroup with its 35 s minimum) are answered promptly, late by drawn factors of the timeout (0.5 .. 3), or never, with brokers whose connections never establish and with disconnect-on-timeout on/off. Every per-broker request must resolve by issued+T, exactly at issued+T with RequestTimedOutError when no reply was delivered in time, at delivery time otherwise; armed timeout timers must equal outstanding requests after every event; removing late replies must change nothing; the silent connection is dropped at the timeout and its other requests reach the broker again. Also: every request that reaches a broker client (brokerclient.makeRequest watched) either has a timed record or resolves within the timeout; version discovery retrying under one correlation id with late replies.",
+         "Requests of mixed kinds (incl. JoinGroup with its 35 s minimum) are answered promptly, late by drawn factors of the timeout (0.5 .. 3), or never, with brokers whose connections never establish and with disconnect-on-timeout on/off. Every per-broker request must resolve by issued+T, exactly at issued+T with RequestTimedOutError when no reply was delivered in time, at delivery time otherwise; armed timeout timers must equal outstanding requests after every event; removing late replies must change nothing; the silent connection is dropped at the timeout and its other requests reach the broker again. Also: every request that reaches a broker client (brokerclient.makeRequest watched) either has a timed record or resolves within the timeout; version discovery retrying under one correlation id with late replies. The timeout in force is derived from the request kind (JoinGroup: max(client timeout, 35 s)).",
          "virtual time: verdicts never depend on wall clock; exact ties between reply and timer accept either outcome", "3/C11"),
 })
 
 CHECKS.update({
  "C20": ("client-e2e", "exploration",
          "fault/close-point injection: close() injected after a drawn event index (stratified by client state seen in a close-free baseline run, also from inside completion callbacks) with monitors on operation Deferreds, simnet's attempt and write logs, and the reactor's delayed calls",
-         "A generated client workload is run once without close() to count events and to survey the states it passes through, then re-run with close() at drawn points. Checked: operations pending at close have failed by the end of that reactor event, new operations fail, no connection attempt or write after the close() call, the close Deferred fires exactly once and only when simnet shows no open connection or pending attempt, metadata maps are empty right after and at the end, no afkak delayed call survives. Two genuine defects are listed in known_findings.json by mechanism; any other violation exits 1.",
-         "one client per world; double close() not generated; a mutant that drops the nested close list is unobservable with this transport model (closing connections finish in call order)", "3/C20"),
+         "A generated client workload is run once without close() to count events and to survey the states it passes through, then re-run with close() at drawn points. Checked: operations pending at close have failed by the end of that reactor event, new operations fail, no connection attempt or write after the close() call, the close Deferred fires exactly once and only when simnet shows no open connection or pending attempt, metadata maps are empty right after and at the end, no afkak delayed call survives. Workloads include callbacks that cancel an earlier operation when a later one fails, connection attempts that fail synchronously and overlapping broker-removal rounds. Two genuine defects are listed in known_findings.json by mechanism; any other violation exits 1.",
+         "one client per world; double close() not generated; the listed bootstrap finding covers a late reply naming no broker (a merged late reply that names brokers is reported)", "3/C20"),
 })
 
 CHECKS.update({
